@@ -7,11 +7,17 @@ class Unsupported(Exception): pass
 class Opt:  # optional int: (is_none, val)
     def __init__(self, is_none, val): self.is_none, self.val = is_none, val
 
-def is_sym(v): return isinstance(v, (z3.ExprRef, Opt))
+class LenStr:  # a string abstracted to its length (a bit-vector or an int)
+    def __init__(self, length): self.length = length
+
+def is_sym(v): return isinstance(v, (z3.ExprRef, Opt, LenStr))
 def zbool(v):
     if isinstance(v, bool): return z3.BoolVal(v)
     if isinstance(v, z3.BoolRef): return v
     if isinstance(v, z3.BitVecRef): return v != 0
+    if isinstance(v, z3.FPRef): return z3.Not(z3.fpIsZero(v))
+    if isinstance(v, LenStr): return zbool(v.length != 0) if is_sym(v.length) else z3.BoolVal(v.length != 0)
+    if isinstance(v, (str, float)): return z3.BoolVal(bool(v))
     if isinstance(v, int): return z3.BoolVal(v != 0)
     if v is None: return z3.BoolVal(False)
     if isinstance(v, list): return z3.BoolVal(len(v) > 0)
@@ -38,10 +44,15 @@ class Ctx:
     def ite(self, c, a, b):
         if a is b: return a
         if isinstance(c, bool): return a if c else b
+        c = z3.simplify(c)
         if z3.is_true(c): return a
         if z3.is_false(c): return b
         if isinstance(a, list) and isinstance(b, list) and len(a) == len(b):
             return [self.ite(c, x, y) for x, y in zip(a, b)]
+        if isinstance(a, LenStr) or isinstance(b, LenStr):
+            la = a.length if isinstance(a, LenStr) else len(a)
+            lb = b.length if isinstance(b, LenStr) else len(b)
+            return LenStr(self.ite(c, la, lb))
         if isinstance(a, Opt) or isinstance(b, Opt) or a is None or b is None:
             a, b = self.toopt(a), self.toopt(b)
             return Opt(z3.If(c, a.is_none, b.is_none), z3.If(c, a.val, b.val))
@@ -128,6 +139,20 @@ class Interp:
         c = self.ctx
         if isinstance(a, Opt): a = a.val
         if isinstance(b, Opt): b = b.val
+        if isinstance(a, (LenStr, str)) or isinstance(b, (LenStr, str)):
+            if isinstance(a, str) and isinstance(b, str) and op is ast.Add: return a + b
+            if isinstance(a, str) and isinstance(b, int) and op is ast.Mult: return a * b
+            if op is ast.Add:
+                la = a.length if isinstance(a, LenStr) else len(a)
+                lb = b.length if isinstance(b, LenStr) else len(b)
+                return LenStr(self.binop(ast.Add, la, lb, guard))
+            if op is ast.Mult:
+                st, n = (a, b) if isinstance(a, (LenStr, str)) else (b, a)
+                ln = st.length if isinstance(st, LenStr) else len(st)
+                prod = self.binop(ast.Mult, ln, n, guard)
+                neg = self.compare(ast.Lt(), n, 0)
+                return LenStr(c.ite(zbool(neg) if is_sym(neg) else neg, 0, prod))      # "x" * -3 == ""
+            raise Unsupported("string operator " + op.__name__)
         if not is_sym(a) and not is_sym(b):
             import operator as o
             return {ast.Add:o.add, ast.Sub:o.sub, ast.Mult:o.mul, ast.Div:o.truediv, ast.FloorDiv:o.floordiv, ast.Mod:o.mod, ast.BitAnd:o.and_, ast.BitOr:o.or_}[op](a, b)
@@ -144,6 +169,11 @@ class Interp:
         if op is ast.Mult: return a * b
         if op is ast.BitAnd: return a & b
         if op is ast.BitOr: return a | b
+        if op in (ast.FloorDiv, ast.Mod):
+            c.side.append(("integer division by zero", z3.And(guard, b == 0)))
+            q, r = a / b, z3.SRem(a, b)                      # truncating signed division / remainder
+            adjust = z3.And(r != 0, (r < 0) != (b < 0))      # Python floors
+            return z3.If(adjust, q - 1, q) if op is ast.FloorDiv else z3.If(adjust, r + b, r)
         raise Unsupported(op.__name__)
     def compare(self, op, a, b):
         c = self.ctx
@@ -174,7 +204,14 @@ class Interp:
             if isinstance(e.value, ast.Name) and e.value.id == "self":
                 k = "self." + e.attr
                 if k in fr.env: return fr.env[k]
-                if fr.dyn_cls is not None and hasattr(fr.dyn_cls, e.attr): return getattr(fr.dyn_cls, e.attr)   # class constants
+                if fr.dyn_cls is not None and hasattr(fr.dyn_cls, e.attr):
+                    attr = None
+                    for k in fr.dyn_cls.__mro__:
+                        if e.attr in k.__dict__:
+                            attr = (k, k.__dict__[e.attr]); break
+                    if attr and isinstance(attr[1], property):                 # property: inline its getter
+                        return self.inline(attr[0], e.attr, [], fr, guard, fn=attr[1].fget)
+                    return getattr(fr.dyn_cls, e.attr)   # class constants
             base = self.expr(fr, e.value, guard)
             if not is_sym(base) and not isinstance(base, (list, Opt)) and base is not None:
                 return getattr(base, e.attr)
@@ -191,8 +228,14 @@ class Interp:
                 r = vals[0]
                 for v in vals[1:]: r = (r and v) if isinstance(e.op, ast.And) else (r or v)
                 return r
-            bs = [zbool(v) for v in vals]      # only used in boolean context in the kernels
-            return z3.And(*bs) if isinstance(e.op, ast.And) else z3.Or(*bs)
+            if any(isinstance(v, (z3.BoolRef, bool)) for v in vals):     # boolean context
+                bs = [zbool(v) for v in vals]
+                return z3.And(*bs) if isinstance(e.op, ast.And) else z3.Or(*bs)
+            r = vals[-1]                                                  # value context: `a or 10`
+            for v in reversed(vals[:-1]):
+                t = zbool(v) if is_sym(v) else z3.BoolVal(bool(v))
+                r = c.ite(t, v, r) if isinstance(e.op, ast.Or) else c.ite(t, r, v)
+            return r
         if isinstance(e, ast.Compare):
             left = self.expr(fr, e.left, guard); res = []
             for op, right in zip(e.ops, e.comparators):
@@ -220,7 +263,8 @@ class Interp:
         args = [self.expr(fr, a, guard) for a in e.args]
         if isinstance(f, ast.Name):
             n = f.id
-            if n == "len": return len(args[0])
+            if n == "len": return args[0].length if isinstance(args[0], LenStr) else len(args[0])
+            if n == "str" and is_sym(args[0]): raise Unsupported("str() of a symbolic value")
             if n == "enumerate": return [(i, v) for i, v in enumerate(args[0])]
             if n == "range": return list(range(*args))
             if n == "sum":
@@ -243,6 +287,14 @@ class Interp:
                 return c.ite(zbool(cond) if is_sym(cond) else cond, a, b)
             if n == "super": return ("super",)
         if isinstance(f, ast.Attribute):
+            dotted = ast.unparse(f)
+            if dotted in self.stubs: return self.stubs[dotted](self, fr, args, guard)
+            if f.attr in self.stubs and not (isinstance(f.value, ast.Name) and f.value.id == "self"): return self.stubs[f.attr](self, fr, args, guard)
+            if dotted in ("math.floor", "math.ceil") and is_sym(args[0]):
+                v = args[0]
+                if isinstance(v, z3.BitVecRef): return v
+                rm = z3.RTN() if dotted == "math.floor" else z3.RTP()
+                return z3.fpToSBV(z3.RTZ(), z3.fpRoundToIntegral(rm, c.tofp(v)), z3.BitVecSort(c.bv))
             # self.method(...) / super(...).method(...): inline from source or stub
             recv = f.value
             is_self = isinstance(recv, ast.Name) and recv.id == "self"
@@ -268,8 +320,8 @@ class Interp:
                     return None
                 raise
         raise Unsupported("call " + ast.dump(f))
-    def inline(self, cls, name, args, caller, guard):
-        fn = cls.__dict__[name]
+    def inline(self, cls, name, args, caller, guard, fn=None):
+        fn = fn or cls.__dict__[name]
         tree = ast.parse(textwrap.dedent(inspect.getsource(fn))).body[0]
         params = [a.arg for a in tree.args.args][1:]
         env = {k: v for k, v in caller.env.items() if k.startswith("self.")}
